@@ -33,6 +33,7 @@ TECHNIQUE = {
  "C38": "typestate over select cases (timer / queue / completion) explored on every path of the deadline call; shape of the overflow return",
  "C23": "path-sensitive exploration of the FS request handler (guards before every use of the path, correlated with the rewriter's nil-ness), who-may-call rule over file-system access sites, operand provenance of the normaliser's dot tests",
  "C24": "zone (difference-bound) abstract interpretation of ParseByteRange path by path; path-sensitive exploration of the range branches of the FS handler; field re-arm coverage of pooled readers",
+ "C25": "file-value typestate per function with ownership contracts of callees (path-sensitive exploration with a disposal counter), reader-count pairing in the handler, read-modify-write interference rule on tracking lists, lockset must-analysis",
  "C28": "classification of element moves in key/value slice routines by index provenance (len-derived vs forward) + who-may-shorten rule over all stores to Args storage",
  "C29": "as C28 for header storage + sibling agreement of special-name tables + CopyTo field coverage (must-write and copied-from-same-field analyses)",
  "C30": "constant evaluation (big-integer side conditions) + path-sensitive guard exploration on SSA",
